@@ -141,7 +141,19 @@ pub fn build_map(
 ) -> (ServerHandlerMap<SimHandler>, BTreeMap<u8, HandlerRef>) {
     let mut map = ServerHandlerMap::new();
     let mut refs = BTreeMap::new();
+    let largest = stores.keys().next_back().copied();
     for (unit, store) in stores {
+        // Adding a unit id a second time replaces the first handler. For the largest id and every
+        // fourth one a decoy is registered first: whatever it is ever asked shows up in the call
+        // log (a second time for a broadcast) or in the reply (its values differ).
+        if Some(*unit) == largest || unit % 4 == 3 {
+            let decoy = SimHandler {
+                store: Store::new(store.seed ^ 0xDEC0, *unit, 0),
+                log: log.clone(),
+            }
+            .wrap();
+            map.add(UnitId::new(*unit), decoy);
+        }
         let h = SimHandler {
             store: store.clone(),
             log: log.clone(),
